@@ -623,3 +623,555 @@ def c17(sc, req, path):
 
 
 PROPS = {'C01': c01, 'C02': c02, 'C03': c03, 'C04': c04, 'C05': c05, 'C06': c06, 'C08': c08, 'C09': c09, 'C10': c10, 'C17': c17}
+
+
+# ---------------------------------------------------------------- C07 admission
+def escrow_exact(sc, req, trs, denom, amount):
+    """exactly `amount` of `denom` escrowed by the sender: attached funds of that one coin (ordinary denom, no message)
+    or a single pull transfer from the sender with no attached funds (restricted marker)"""
+    if len(sc.funds) == 1:
+        f = sc.funds[0]
+        funds_exact = z3.And(f.fields[0] == denom, uv(f.fields[1]) == amount)
+    else:
+        funds_exact = z3.BoolVal(False)
+    if len(trs) == 1 and trs[0].wellformed and trs[0].kind == 'marker':
+        t = trs[0]
+        pull_exact = z3.And(t.frm == req['sender'], t.to == CONTRACT, t.admin == CONTRACT, t.denom == denom, t.amount == amount)
+    else:
+        pull_exact = z3.BoolVal(False)
+    return z3.If(restricted(denom), z3.And(len(sc.funds) == 0, pull_exact), z3.And(funds_exact, len(trs) == 0))
+
+
+def funds_shape_ok(sc, req, denom, amount):
+    """the attached funds are what an admissible request carries (used for the converse direction)"""
+    if len(sc.funds) == 0:
+        return restricted(denom)
+    if len(sc.funds) == 1:
+        f = sc.funds[0]
+        return z3.And(z3.Not(restricted(denom)), f.fields[0] == denom, uv(f.fields[1]) == amount)
+    return z3.BoolVal(False)
+
+
+def has_required_attributes(sc, req, required):
+    if not required:
+        return z3.BoolVal(True)
+    names = sc.world.attrs or []
+    return z3.And(f_attr_ok(req['sender']), *[z3.Or(*[r == n for n in names]) if names else z3.BoolVal(False) for r in required])
+
+
+def c07(sc, req, path):
+    ti, kind = sc.ti, req['kind']
+    if kind not in ('CreateAsk', 'CreateBid'):
+        return
+    ns = 'ask' if kind == 'CreateAsk' else 'bid'
+    rid = req['id']
+    base_denom = sc.cfgf('base_denom')
+    inc = sc.sym['cfg.increment']
+    pn, pd, size = req['pn'], req['pd'], req['size']
+    canonical = z3.And(f_uuid_ok(rid), f_uuid_hyph(rid) == rid)
+    not_on_book = z3.And(*[z3.Not(matched(e, rid)) for e in sc.world.maps[ns]])
+    price_ok = z3.And(f_dec_ok(req['price']), pn > 0, (pn * sc.p10) % pd == 0)
+    defs, _, lot_rem = euclid_vars(sc.eng, size, inc)
+    size_ok = z3.And(size >= 1, lot_rem == 0)
+    quote_ok = z3.And(in_list(req['quote'], sc.cfgf('supported_quote_denoms')), req['quote'] != EMPTY, req['base'] != EMPTY)     # a denomination is a non-empty string
+    if kind == 'CreateAsk':
+        base_ok = z3.Or(req['base'] == base_denom, in_list(req['base'], sc.cfgf('convertible_base_denoms')))
+        attrs_ok = has_required_attributes(sc, req, sc.cfgf('ask_required_attributes'))
+        A = z3.And(canonical, not_on_book, base_ok, quote_ok, price_ok, size_ok, attrs_ok)
+        escrow_denom, escrow_amount = req['base'], size
+    else:
+        base_ok = req['base'] == base_denom
+        attrs_ok = has_required_attributes(sc, req, sc.cfgf('bid_required_attributes'))
+        total_ok = z3.And((pn * size) % pd == 0, req['quote_size'] * pd == pn * size)
+        bfi = sc.cfgf('bid_fee_info')
+        if bfi.variant == 'Some':
+            rate = ti.get(bfi.fields[0], 'rate')
+            rn, rd = f_dec_n(rate), f_dec_d(rate)
+            fee_calc = (2 * rn * req['quote_size'] + rd) / (2 * rd)
+        else:
+            fee_calc = z3.IntVal(0)
+        if req['spec']['reqfee']:
+            fee_ok = z3.And(req['fee_amount'] == fee_calc, req['fee_denom'] == req['quote'])
+            fee_amt = req['fee_amount']
+        else:
+            fee_ok = fee_calc == 0
+            fee_amt = z3.IntVal(0)
+        A = z3.And(canonical, not_on_book, base_ok, quote_ok, price_ok, size_ok, total_ok, fee_ok, attrs_ok, req['quote_size'] >= 1)
+        escrow_denom, escrow_amount = req['quote'], req['quote_size'] + fee_amt
+    if path.kind == 'ok':
+        trs = transfers(path)
+        yield refute('admitted_only_if_well_formed', defs + [z3.Not(A)], kind=kind)
+        yield refute('admitted_only_if_exactly_funded', [z3.Not(escrow_exact(sc, req, trs, escrow_denom, escrow_amount))], kind=kind)
+        # recorded order reproduces the request, sender as owner, nothing filled; only that key written
+        writes = path.writes()
+        if len(writes) != 1 or writes[0][0] != 'save' or writes[0][1] != ns:
+            yield refute('recorded_order_reproduces_request', [z3.BoolVal(True)], kind=kind)
+        else:
+            yield refute('recorded_order_reproduces_request', [writes[0][2] != rid], kind=kind)
+            alts = []
+            for e in path.world.maps[ns]:
+                if ns == 'ask':
+                    a = ask_view(ti, e.val)
+                    if a['cls'] not in ('Basic', 'Pending'):
+                        continue
+                    cls_ok = (req['base'] == base_denom) if a['cls'] == 'Basic' else (req['base'] != base_denom)
+                    same = z3.And(e.present, e.key == rid, a['id'] == rid, a['owner'] == req['sender'], a['base'] == req['base'], a['quote'] == req['quote'], a['price'] == req['price'], a['size'] == size, cls_ok)
+                else:
+                    b = bid_view(ti, e.val)
+                    same = z3.And(e.present, e.key == rid, b['id'] == rid, b['owner'] == req['sender'], b['base_denom'] == req['base'], b['base'] == size, b['quote_denom'] == req['quote'],
+                                  b['quote'] == req['quote_size'], b['price'] == req['price'], b['acc_b'] == 0, b['acc_q'] == 0, b['acc_f'] == 0)
+                    if req['spec']['reqfee']:
+                        if not b['hasfee']:
+                            continue
+                        same = z3.And(same, b['fee'] == req['fee_amount'], b['fee_denom'] == req['fee_denom'])
+                    elif b['hasfee']:
+                        continue
+                alts.append(same)
+            yield refute('recorded_order_reproduces_request', [z3.Not(z3.Or(*alts) if alts else z3.BoolVal(False))], kind=kind)
+        # orders already on the book (incl. one under the same id on the other side) are untouched
+        from .models import struct_eq
+        for side in ('ask', 'bid'):
+            for i, e in enumerate(sc.world.maps[side]):
+                post = path.world.maps[side][i]
+                yield refute('existing_order_untouched', [e.present, z3.Not(z3.And(post.present, struct_eq(e.val, post.val)))], kind=kind)
+    elif path.kind in ('err', 'panic'):
+        legal = defs + [A, funds_shape_ok(sc, req, escrow_denom, escrow_amount)]
+        yield refute('admissible_request_is_accepted', legal, kind=kind, outcome=path.kind, detail=path.detail)
+
+
+# ---------------------------------------------------------------- C11 order integrity / frame
+def inv_ask(sc, a):
+    base_denom = sc.cfgf('base_denom')
+    pn, pd = f_dec_n(a['price']), f_dec_d(a['price'])
+    c = [a['size'] >= 1, f_dec_ok(a['price']), pn > 0, (pn * sc.p10) % pd == 0, in_list(a['quote'], sc.cfgf('supported_quote_denoms'))]
+    if a['cls'] == 'Basic':
+        c.append(a['base'] == base_denom)
+    else:
+        c.append(a['base'] != base_denom)
+        c.append(in_list(a['base'], sc.cfgf('convertible_base_denoms')))
+    return z3.And(*c)
+
+
+def inv_bid(sc, b):
+    pn, pd = f_dec_n(b['price']), f_dec_d(b['price'])
+    c = [b['rem_b'] >= 1, b['acc_b'] >= 0, b['acc_q'] >= 0, f_dec_ok(b['price']), pn > 0, (pn * sc.p10) % pd == 0, b['base_denom'] == sc.cfgf('base_denom'),
+         in_list(b['quote_denom'], sc.cfgf('supported_quote_denoms')), b['quote'] * pd == pn * b['base'], b['rem_q'] * pd == pn * b['rem_b']]
+    return z3.And(*c)
+
+
+def c11(sc, req, path):
+    if path.kind != 'ok':
+        return
+    ti, kind = sc.ti, req['kind']
+    named = {'ask': [], 'bid': []}
+    if kind in ST.ASK_KINDS or kind in ('ApproveAsk', 'CreateAsk'):
+        named['ask'].append(req['id'])
+    elif kind in ST.BID_KINDS or kind == 'CreateBid':
+        named['bid'].append(req['id'])
+    elif kind == 'ExecuteMatch':
+        named['ask'].append(req['ask_id'])
+        named['bid'].append(req['bid_id'])
+    for w in path.writes():
+        op, ns, key, _ = w
+        if ns in ('ask', 'bid'):
+            yield refute('writes_only_named_keys', [z3.Not(z3.Or(*[key == k for k in named[ns]]) if named[ns] else z3.BoolVal(False))], kind=kind, ns=ns)
+        elif ns == 'contract_info':
+            if kind != 'ModifyContract':
+                yield refute('configuration_untouched', [z3.BoolVal(True)], kind=kind)
+        else:
+            yield refute('version_record_untouched', [z3.BoolVal(True)], kind=kind)
+    for ns in ('ask', 'bid'):
+        for i, e in enumerate(sc.world.maps[ns]):
+            post = path.world.maps[ns][i]
+            is_named = z3.Or(*[e.key == k for k in named[ns]]) if named[ns] else z3.BoolVal(False)
+            if ns == 'ask':
+                a, pa = ask_view(ti, e.val), ask_view(ti, post.val)
+                untouched = z3.And(post.present == e.present, pa['size'] == a['size'], pa['owner'] == a['owner'], pa['price'] == a['price'], pa['base'] == a['base'],
+                                   pa['quote'] == a['quote'], pa['id'] == a['id'], z3.BoolVal(pa['cls'] == a['cls']))
+                if a['cls'] == 'Ready' and pa['cls'] == 'Ready':
+                    untouched = z3.And(untouched, pa['approver'] == a['approver'], pa['cb_amount'] == a['cb_amount'], pa['cb_denom'] == a['cb_denom'])
+                yield refute('other_orders_untouched', [e.present, z3.Not(is_named), z3.Not(untouched)], kind=kind, ns=ns)
+                cls_ok = pa['cls'] == a['cls'] or (a['cls'] == 'Pending' and pa['cls'] == 'Ready')
+                immut = z3.And(pa['owner'] == a['owner'], pa['price'] == a['price'], pa['base'] == a['base'], pa['quote'] == a['quote'], pa['id'] == a['id'],
+                               pa['size'] <= a['size'], z3.BoolVal(cls_ok))
+                if a['cls'] == 'Ready' and pa['cls'] == 'Ready':
+                    immut = z3.And(immut, pa['approver'] == a['approver'], pa['cb_denom'] == a['cb_denom'], pa['cb_amount'] <= a['cb_amount'])
+                yield refute('immutable_terms_and_shrinking_remainders', [e.present, post.present, z3.Not(immut)], kind=kind, ns=ns)
+                yield refute('open_order_internally_consistent', [post.present, z3.Not(inv_ask(sc, pa))], kind=kind, ns=ns)
+            else:
+                b, pb = bid_view(ti, e.val), bid_view(ti, post.val)
+                same_terms = z3.And(pb['owner'] == b['owner'], pb['price'] == b['price'], pb['base_denom'] == b['base_denom'], pb['quote_denom'] == b['quote_denom'], pb['id'] == b['id'],
+                                    pb['base'] == b['base'], pb['quote'] == b['quote'], pb['fee'] == b['fee'], z3.BoolVal(pb['hasfee'] == b['hasfee']))
+                if b['hasfee'] and pb['hasfee']:
+                    same_terms = z3.And(same_terms, pb['fee_denom'] == b['fee_denom'])
+                untouched = z3.And(post.present == e.present, same_terms, pb['acc_b'] == b['acc_b'], pb['acc_q'] == b['acc_q'], pb['acc_f'] == b['acc_f'])
+                yield refute('other_orders_untouched', [e.present, z3.Not(is_named), z3.Not(untouched)], kind=kind, ns=ns)
+                immut = z3.And(same_terms, pb['acc_b'] >= b['acc_b'], pb['acc_q'] >= b['acc_q'], pb['acc_f'] >= b['acc_f'])
+                yield refute('immutable_terms_and_shrinking_remainders', [e.present, post.present, z3.Not(immut)], kind=kind, ns=ns)
+                yield refute('open_order_internally_consistent', [post.present, z3.Not(inv_bid(sc, pb))], kind=kind, ns=ns)
+    # newly recorded orders are consistent too
+    for ns in ('ask', 'bid'):
+        for e in path.world.maps[ns][len(sc.world.maps[ns]):]:
+            v = ask_view(ti, e.val) if ns == 'ask' else bid_view(ti, e.val)
+            yield refute('open_order_internally_consistent', [e.present, z3.Not(inv_ask(sc, v) if ns == 'ask' else inv_bid(sc, v))], kind=kind, ns=ns)
+    if kind != 'ModifyContract':
+        pre, post = sc.world.items.get('contract_info'), path.world.items.get('contract_info')
+        from .models import struct_eq
+        yield refute('configuration_untouched', [z3.Not(struct_eq(pre, post))], kind=kind)
+    from .models import struct_eq as _seq
+    yield refute('version_record_untouched', [z3.Not(_seq(sc.world.items.get('version_info'), path.world.items.get('version_info')))], kind=kind)
+
+
+# ---------------------------------------------------------------- C12 configuration changes
+def fee_view(ti, opt):
+    if opt.variant == 'None':
+        return None
+    fi = opt.fields[0]
+    return dict(account=uv(ti.get(fi, 'account')), rate=ti.get(fi, 'rate'))
+
+
+def same_rate(old, new):
+    if old is None and new is None:
+        return z3.BoolVal(True)
+    if old is None or new is None:
+        return z3.BoolVal(False)
+    return z3.And(f_dec_ok(new['rate']), f_dec_n(old['rate']) * f_dec_d(new['rate']) == f_dec_n(new['rate']) * f_dec_d(old['rate']))
+
+
+def list_eq(x, y):
+    if len(x) != len(y):
+        return z3.BoolVal(False)
+    return z3.And(*[(uv(a) if isinstance(a, Adt) else a) == (uv(b) if isinstance(b, Adt) else b) for a, b in zip(x, y)]) if x else z3.BoolVal(True)
+
+
+def c12(sc, req, path):
+    if req['kind'] != 'ModifyContract' or path.kind != 'ok':
+        return
+    ti = sc.ti
+    old, new = sc.world.items['contract_info'], path.world.items['contract_info']
+    g = lambda c, n: ti.get(c, n)
+    w = sc.world
+    contains_ask = z3.Or(w.rest_nonempty['ask'], *[e.present for e in w.maps['ask']])
+    contains_bid = z3.Or(w.rest_nonempty['bid'], *[e.present for e in w.maps['bid']])
+    yield prove('config_change_executor_only', in_list(req['sender'], g(old, 'executors')))
+    for side, contains in (('ask', contains_ask), ('bid', contains_bid)):
+        fo, fn = fee_view(ti, g(old, side + '_fee_info')), fee_view(ti, g(new, side + '_fee_info'))
+        yield refute('fee_rate_frozen_while_side_open', [contains, z3.Not(same_rate(fo, fn))], side=side)
+        yield refute('required_attributes_frozen_while_side_open', [contains, z3.Not(list_eq(g(old, side + '_required_attributes'), g(new, side + '_required_attributes')))], side=side)
+    # no current approver dropped while any order is open
+    olda, newa = g(old, 'approvers'), g(new, 'approvers')
+    kept = z3.And(*[in_list(uv(a), newa) for a in olda]) if olda else z3.BoolVal(True)
+    yield refute('approvers_not_dropped_while_orders_open', [z3.Or(contains_ask, contains_bid), z3.Not(kept)])
+    # omitted fields keep their values, supplied ones are installed exactly
+    for name in ('approvers', 'executors'):
+        sup = req[name]
+        if sup is None:
+            yield refute('omitted_field_unchanged', [z3.Not(list_eq(g(old, name), g(new, name)))], field=name)
+        else:
+            yield refute('supplied_field_installed', [z3.Not(list_eq(sup, g(new, name)))], field=name)
+            if len(sup) == 0:
+                yield refute('role_lists_not_emptied', [z3.BoolVal(True)], field=name)
+    for name in ('ask_required_attributes', 'bid_required_attributes'):
+        sup = req[name]
+        if sup is None:
+            yield refute('omitted_field_unchanged', [z3.Not(list_eq(g(old, name), g(new, name)))], field=name)
+        else:
+            yield refute('supplied_field_installed', [z3.Not(list_eq(sup, g(new, name)))], field=name)
+    for side in ('ask', 'bid'):
+        rate, acct = req[side + '_fee_rate'], req[side + '_fee_account']
+        fo, fn = fee_view(ti, g(old, side + '_fee_info')), fee_view(ti, g(new, side + '_fee_info'))
+        if rate is None and acct is None:
+            if (fo is None) != (fn is None):
+                yield refute('omitted_field_unchanged', [z3.BoolVal(True)], field=side + '_fee')
+            elif fo is not None:
+                yield refute('omitted_field_unchanged', [z3.Not(z3.And(fo['account'] == fn['account'], fo['rate'] == fn['rate']))], field=side + '_fee')
+        elif rate is not None and acct is not None:
+            cleared = z3.And(rate == EMPTY, acct == EMPTY)
+            if fn is None:
+                yield refute('supplied_field_installed', [z3.Not(cleared)], field=side + '_fee')
+            else:
+                yield refute('supplied_field_installed', [z3.Not(z3.And(z3.Not(cleared), fn['account'] == acct, fn['rate'] == rate, f_dec_ok(rate), f_addr_ok(acct)))], field=side + '_fee')
+        else:
+            yield refute('fee_pair_supplied_together', [z3.BoolVal(True)], field=side + '_fee')
+    for name in ('name', 'bind_name', 'base_denom'):
+        yield refute('market_parameters_immutable', [g(old, name) != g(new, name)], field=name)
+    for name in ('convertible_base_denoms', 'supported_quote_denoms'):
+        yield refute('market_parameters_immutable', [z3.Not(list_eq(g(old, name), g(new, name)))], field=name)
+    for name in ('price_precision', 'size_increment'):
+        yield refute('market_parameters_immutable', [uv(g(old, name)) != uv(g(new, name))], field=name)
+    for wr in path.writes():
+        if wr[1] != 'contract_info':
+            yield refute('config_change_writes_only_configuration', [z3.BoolVal(True)], ns=wr[1])
+
+
+PROPS.update({'C07': c07, 'C11': c11, 'C12': c12})
+
+
+# ---------------------------------------------------------------- C13 instantiation
+def pow10_term(P, lo=0, hi=40):
+    t = z3.IntVal(10 ** hi)
+    for k in range(hi - 1, lo - 1, -1):
+        t = z3.If(P == k, z3.IntVal(10 ** k), t)
+    return t
+
+
+def fee_pair_coherent(rate, acct):
+    if rate is None and acct is None:
+        return z3.BoolVal(True), 'none'
+    if rate is None or acct is None:
+        return z3.BoolVal(False), 'half'
+    return z3.Or(z3.And(rate == EMPTY, acct == EMPTY), z3.And(f_dec_ok(rate), f_addr_ok(acct))), 'pair'
+
+
+def c13(sc, req, path):
+    if req['kind'] != 'Instantiate':
+        return
+    ti = sc.ti
+    P, I = req['P'], req['I']
+    p10 = pow10_term(P, 0, 18)
+    defs, _, rem = euclid_vars(sc.eng, I, p10)
+    # the engine's own term for 10^P may differ syntactically: use a fresh decomposition tied to the oracle's table
+    q_, r_ = fresh_int('q'), fresh_int('rem')
+    defs = [floor_def(I, p10, q_, r_)]
+    afc, _ = fee_pair_coherent(req['ask_fee_rate'], req['ask_fee_account'])
+    bfc, _ = fee_pair_coherent(req['bid_fee_rate'], req['bid_fee_account'])
+    coherent = z3.And(req['name'] != EMPTY, req['base_denom'] != EMPTY, len(req['quotes']) > 0, len(req['executors']) > 0, P <= 18, I >= 1, r_ == 0, afc, bfc,
+                      *[f_addr_ok(a) for a in req['approvers'] + req['executors']])
+    if path.kind == 'ok':
+        yield refute('instantiate_only_coherent', defs + [z3.Not(coherent)])
+        cfg = path.world.items.get('contract_info')
+        ver = path.world.items.get('version_info')
+        if cfg is None or ver is None:
+            yield refute('stored_configuration_equals_request', [z3.BoolVal(True)])
+            return
+        g = lambda n: ti.get(cfg, n)
+        same = z3.And(g('name') == req['name'], g('base_denom') == req['base_denom'], list_eq(g('convertible_base_denoms'), req['conv']),
+                      list_eq(g('supported_quote_denoms'), req['quotes']), list_eq(g('approvers'), req['approvers']), list_eq(g('executors'), req['executors']),
+                      list_eq(g('ask_required_attributes'), req['ask_attrs']), list_eq(g('bid_required_attributes'), req['bid_attrs']),
+                      uv(g('price_precision')) == P, uv(g('size_increment')) == I)
+        yield refute('stored_configuration_equals_request', [z3.Not(same)])
+        for side in ('ask', 'bid'):
+            rate, acct = req[side + '_fee_rate'], req[side + '_fee_account']
+            fv = fee_view(ti, g(side + '_fee_info'))
+            if rate is None or acct is None:
+                yield refute('stored_fee_equals_request', [z3.BoolVal(fv is not None)], side=side)
+            elif fv is None:
+                yield refute('stored_fee_equals_request', [z3.Not(z3.And(rate == EMPTY, acct == EMPTY))], side=side)
+            else:
+                yield refute('stored_fee_equals_request', [z3.Not(z3.And(fv['rate'] == rate, fv['account'] == acct, z3.Not(z3.And(rate == EMPTY, acct == EMPTY))))], side=side)
+        yield refute('version_record_is_package_version', [z3.Not(z3.And(ti.get(ver, 'version') == lit(req['pkg_version']), ti.get(ver, 'definition') == lit(req['pkg_name'])))])
+        act = attr_values(path, 'action')
+        yield refute('action_names_request_kind', [z3.Not(act[0] == lit('init'))] if len(act) == 1 else [z3.BoolVal(True)])
+    elif path.kind in ('err', 'panic'):
+        yield refute('coherent_configuration_is_accepted', defs + [coherent], outcome=path.kind, detail=path.detail)
+
+
+def integrality_corollary():
+    """price with at most P decimals, size a multiple of an increment that is a multiple of 10^P  =>  price*size is an integer.
+    Posed per precision with constant powers of ten (u = mantissa * lots is an arbitrary integer)."""
+    obls = []
+    for P in range(0, 19):
+        for e in range(0, P + 1):
+            u = z3.Int('u')
+            obls.append(Obl('integrality_of_admissible_price_times_size', [(u * 10 ** P) % (10 ** e) != 0], P=P, scale=e))
+    return obls
+
+
+# ---------------------------------------------------------------- C14 / C15 migration
+MIN_VERSION = (0, 16, 2)           # the supported minimum source version at the pinned commit
+V2_WINDOW_END = (0, 19, 1)         # bids were stored with an event log before this version
+
+
+def ver_ge(v, t):
+    maj, mi, pa = f_sv_maj(v), f_sv_min(v), f_sv_pat(v)
+    return z3.Or(maj > t[0], z3.And(maj == t[0], mi > t[1]), z3.And(maj == t[0], mi == t[1], pa >= t[2]))
+
+
+def supported_version(v):
+    from .engine import f_sv_ok, f_sv_pre
+    return z3.And(f_sv_ok(v), z3.Not(f_sv_pre(v)), ver_ge(v, MIN_VERSION))
+
+
+from .engine import f_sv_ok, f_sv_maj, f_sv_min, f_sv_pat, f_sv_pre
+
+
+def v2_sums(rec):
+    sb = sq = sf = z3.IntVal(0)
+    for ev in rec['events']:
+        if ev['variant'] in ('Fill', 'Reject'):
+            sb = sb + ev['base']
+        sq = sq + ev['quote']
+        if ev['hasfee']:
+            sf = sf + ev['fee']
+    return sb, sq, sf
+
+
+def migrate_cfg_expected(sc, req, old, new):
+    ti = sc.ti
+    g = lambda c, n: ti.get(c, n)
+    conds = []
+    for name in ('name', 'bind_name', 'base_denom'):
+        conds.append(g(old, name) == g(new, name))
+    for name in ('convertible_base_denoms', 'supported_quote_denoms', 'executors'):
+        conds.append(list_eq(g(old, name), g(new, name)))
+    for name in ('price_precision', 'size_increment'):
+        conds.append(uv(g(old, name)) == uv(g(new, name)))
+    conds.append(list_eq(req['approvers'], g(new, 'approvers')) if req['approvers'] is not None else list_eq(g(old, 'approvers'), g(new, 'approvers')))
+    for name in ('ask_required_attributes', 'bid_required_attributes'):
+        conds.append(list_eq(req[name], g(new, name)) if req[name] is not None else list_eq(g(old, name), g(new, name)))
+    for side in ('ask', 'bid'):
+        rate, acct = req[side + '_fee_rate'], req[side + '_fee_account']
+        fo, fn = fee_view(ti, g(old, side + '_fee_info')), fee_view(ti, g(new, side + '_fee_info'))
+        if rate is not None and acct is not None:
+            cleared = z3.And(rate == EMPTY, acct == EMPTY)
+            conds.append(cleared if fn is None else z3.And(z3.Not(cleared), fn['account'] == acct, fn['rate'] == rate))
+        else:
+            if (fo is None) != (fn is None):
+                conds.append(z3.BoolVal(False))
+            elif fo is not None:
+                conds.append(z3.And(fo['account'] == fn['account'], fo['rate'] == fn['rate']))
+    return z3.And(*conds)
+
+
+def migrate_msg_valid(req):
+    conds = []
+    for side in ('ask', 'bid'):
+        c, _ = fee_pair_coherent(req[side + '_fee_rate'], req[side + '_fee_account'])
+        conds.append(c)
+    if req['approvers'] is not None:
+        conds += [f_addr_ok(a) for a in req['approvers']]
+    return z3.And(*conds)
+
+
+def c14(sc, req, path):
+    if req['kind'] != 'Migrate':
+        return
+    ti = sc.ti
+    v = req['version']
+    from .models import struct_eq
+    if path.kind == 'ok':
+        yield refute('migration_version_gated', [z3.Not(supported_version(v))])
+        for w in path.writes():
+            if w[1] == 'ask':
+                yield refute('migration_leaves_asks_untouched', [z3.BoolVal(True)])
+        for i, e in enumerate(sc.world.maps['ask']):
+            post = path.world.maps['ask'][i]
+            yield refute('migration_leaves_asks_untouched', [z3.Not(z3.And(post.present == e.present, struct_eq(e.val, post.val)))])
+        if len(path.world.maps['ask']) != len(sc.world.maps['ask']):
+            yield refute('migration_leaves_asks_untouched', [z3.BoolVal(True)])
+        old, new = sc.world.items['contract_info'], path.world.items['contract_info']
+        yield refute('migration_applies_exactly_the_overrides', [z3.Not(migrate_cfg_expected(sc, req, old, new))])
+        ver = path.world.items['version_info']
+        yield refute('migration_stamps_package_version', [z3.Not(z3.And(ti.get(ver, 'version') == lit(req['pkg_version']), ti.get(ver, 'definition') == lit(req['pkg_name'])))])
+        # current-format bids untouched, nothing lost or invented
+        if len(path.world.maps['bid']) != len(sc.world.maps['bid']):
+            yield refute('migration_keeps_bid_key_set', [z3.BoolVal(True)])
+        for i, e in enumerate(sc.world.maps['bid']):
+            post = path.world.maps['bid'][i]
+            if e.fmt == 'BidOrderV3':
+                yield refute('migration_leaves_current_bids_untouched', [z3.Not(z3.And(post.present == e.present, struct_eq(e.val, post.val), post.fmt == 'BidOrderV3'))])
+    elif path.kind in ('err', 'panic'):
+        yield refute('supported_migration_is_carried_out', [supported_version(v), migrate_msg_valid(req)], outcome=path.kind, detail=path.detail)
+
+
+def c14_idempotence(sc, req, path1, path2):
+    """second run of the same migration from the first one's post-state"""
+    from .models import struct_eq
+    if path2.kind != 'ok':
+        yield refute('second_migration_accepted', [z3.BoolVal(True)], outcome=path2.kind, detail=path2.detail)
+        return
+    w1, w2 = path1.world, path2.world
+    conds = [struct_eq(w1.items['contract_info'], w2.items['contract_info']), struct_eq(w1.items['version_info'], w2.items['version_info'])]
+    for ns in ('ask', 'bid'):
+        if len(w1.maps[ns]) != len(w2.maps[ns]):
+            conds.append(z3.BoolVal(False))
+            continue
+        for a, b in zip(w1.maps[ns], w2.maps[ns]):
+            conds.append(z3.And(a.present == b.present, struct_eq(a.val, b.val), z3.BoolVal(a.fmt == b.fmt)))
+    yield refute('second_migration_changes_nothing', [z3.Not(z3.And(*conds))])
+
+
+def c15(sc, req, path):
+    if req['kind'] != 'Migrate' or path.kind != 'ok':
+        return
+    ti = sc.ti
+    v = req['version']
+    from .models import struct_eq
+    in_window = z3.And(supported_version(v), z3.Not(ver_ge(v, V2_WINDOW_END)))
+    bid_writes = [w for w in path.writes() if w[1] == 'bid']
+    if bid_writes:
+        yield refute('no_rewrite_outside_conversion_window', [z3.Not(in_window)])
+    if len(path.world.maps['bid']) != len(sc.world.maps['bid']):
+        yield refute('no_bid_lost_or_invented', [z3.BoolVal(True)])
+        return
+    for i, e in enumerate(sc.world.maps['bid']):
+        post = path.world.maps['bid'][i]
+        rec = sc.bids[i]
+        yield refute('no_bid_lost_or_invented', [z3.Not(z3.And(post.present, post.key == e.key))])
+        if e.fmt == 'BidOrderV3':
+            yield refute('current_format_bids_untouched', [z3.Not(z3.And(struct_eq(e.val, post.val), z3.BoolVal(post.fmt == 'BidOrderV3')))])
+            continue
+        # legacy bid
+        if post.fmt == 'BidOrderV2':
+            yield refute('legacy_bids_converted_inside_window', [in_window])
+            yield refute('legacy_bid_kept_verbatim_outside_window', [z3.Not(struct_eq(e.val, post.val))])
+            continue
+        yield refute('no_rewrite_outside_conversion_window', [z3.Not(in_window)])
+        old = e.val
+        nb = bid_view(ti, post.val)
+        sb, sq, sf = v2_sums(rec)
+        g = lambda n: ti.get(old, n)
+        ob, oq, of = g('base'), g('quote'), g('fee')
+        same = z3.And(nb['acc_b'] == sb, nb['acc_q'] == sq, nb['acc_f'] == sf, nb['base'] == uv(ob.fields[1]), nb['base_denom'] == ob.fields[0], nb['quote'] == uv(oq.fields[1]),
+                      nb['quote_denom'] == oq.fields[0], nb['id'] == g('id'), nb['owner'] == uv(g('owner')), nb['price'] == g('price'), z3.BoolVal(nb['hasfee'] == (of.variant == 'Some')))
+        if of.variant == 'Some' and nb['hasfee']:
+            same = z3.And(same, nb['fee'] == uv(of.fields[0].fields[1]), nb['fee_denom'] == of.fields[0].fields[0])
+        yield refute('conversion_preserves_remaining_amounts_and_fields', [z3.Not(same)], events=len(rec['events']))
+
+
+# ---------------------------------------------------------------- C16 queries
+def c16(sc, req, path):
+    if req['kind'] != 'Query':
+        return
+    ti = sc.ti
+    from .models import struct_eq
+    q = req['q']
+    for w in path.writes():
+        yield refute('queries_never_write', [z3.BoolVal(True)], q=q)
+    # storage identical afterwards
+    for ns in ('ask', 'bid'):
+        for a, b in zip(sc.world.maps[ns], path.world.maps[ns]):
+            yield refute('queries_never_write', [z3.Not(z3.And(a.present == b.present, struct_eq(a.val, b.val)))], q=q)
+    for k in ('contract_info', 'version_info'):
+        yield refute('queries_never_write', [z3.Not(struct_eq(sc.world.items[k], path.world.items[k]))], q=q)
+
+    def result_value():
+        r = path.resp
+        if isinstance(r, Adt) and r.ty == 'Binary' and isinstance(r.fields[0], Opaque) and r.fields[0].tag == 'Json':
+            return r.fields[0].a[0]
+        return None
+    if q in ('GetAsk', 'GetBid'):
+        ns = 'ask' if q == 'GetAsk' else 'bid'
+        rid = req['id']
+        on_book = z3.Or(*[matched(e, rid) for e in sc.world.maps[ns]])
+        if path.kind == 'ok':
+            val = result_value()
+            if val is None:
+                yield refute('order_query_returns_the_stored_order', [z3.BoolVal(True)], q=q)
+            else:
+                alts = [z3.And(matched(e, rid), struct_eq(e.val, val)) if e.val.ty == val.ty else z3.BoolVal(False) for e in sc.world.maps[ns]]
+                yield refute('order_query_returns_the_stored_order', [z3.Not(z3.Or(*alts))], q=q)
+        else:
+            # an id on the (named) book that parses as a UUID is answered
+            yield refute('order_query_answers_for_orders_on_the_book', [on_book, f_uuid_ok(rid)], q=q, outcome=path.kind)
+    else:
+        key = 'contract_info' if q == 'GetContractInfo' else 'version_info'
+        if path.kind == 'ok':
+            val = result_value()
+            yield refute('info_query_returns_the_stored_record', [z3.Not(struct_eq(sc.world.items[key], val))] if val is not None and val.ty == sc.world.items[key].ty else [z3.BoolVal(True)], q=q)
+        else:
+            yield refute('info_query_always_answers', [z3.BoolVal(True)], q=q, outcome=path.kind)
+
+
+from .engine import Opaque
+PROPS.update({'C13': c13, 'C14': c14, 'C15': c15, 'C16': c16})
